@@ -23,6 +23,9 @@
 //     fallthrough), return (also naked), :=, =, op=, ++, --, var, assignments
 //     to fields of the receiver or of local struct values; statements after a
 //     branching statement are duplicated into both branches;
+//   - `for range n { f(…); _ = g(…) }` over an integer n whose body consists
+//     only of calls with discarded results (trace mode): the body's trace
+//     entries are appended `n` times (`List.replicate n.toNat [...]`);
 //   - a `panic(…)` statement makes the result `none`, like every other
 //     run-time panic;
 //   - expressions: literals, constants (folded with go/types, so imported
@@ -1262,6 +1265,39 @@ func (c *fctx) stmts(list []ast.Stmt) string {
 			fail("call statement %s (not ignored, no trace)", c.show(x))
 		}
 		return "let tr := tr ++ [" + c.traceEntry(call) + "]\n" + c.stmts(rest)
+	case *ast.RangeStmt:
+		// for range n { opaque calls whose results are discarded }
+		if x.Key != nil || x.Value != nil || !isInt(c.typeOf(x.X)) || !c.trace {
+			fail("range statement %s", c.show(x))
+		}
+		var entries []string
+		for _, b := range x.Body.List {
+			var call *ast.CallExpr
+			switch bs := b.(type) {
+			case *ast.ExprStmt:
+				call, _ = bs.X.(*ast.CallExpr)
+			case *ast.AssignStmt:
+				blank := len(bs.Rhs) == 1
+				for _, l := range bs.Lhs {
+					if id, ok := l.(*ast.Ident); !ok || id.Name != "_" {
+						blank = false
+					}
+				}
+				if blank {
+					call, _ = bs.Rhs[0].(*ast.CallExpr)
+				}
+			}
+			if call == nil {
+				fail("statement %s in a counted loop", c.show(b))
+			}
+			if c.matches(c.spec.Ignore, call) {
+				continue
+			}
+			entries = append(entries, c.traceEntry(call))
+		}
+		return c.withEx(c.expr(x.X), func(code string) string {
+			return fmt.Sprintf("let tr := tr ++ (List.replicate (Int.toNat %s) [%s]).flatten\n", code, strings.Join(entries, ", ")) + c.stmts(rest)
+		})
 	case *ast.DeferStmt:
 		if c.matches(c.spec.Ignore, x.Call) {
 			return c.stmts(rest)
